@@ -302,7 +302,8 @@ def o_c03(rec, table=None):
         info["skipped"] = "incomplete rounds"
         return out, info
     hist = [(r["f"], r["v"]) for r in table]
-    delta = max(r["slack"] for r in table)
+    slacks = [r["slack"] for r in table]
+    delta = max(slacks)
     x = np.asarray(res.x, dtype=float)
     cand = [r for r in table if r["x"].tobytes() == x.tobytes()
             and feq(r["f"], res.fun)]
@@ -318,6 +319,7 @@ def o_c03(rec, table=None):
             info["skipped"] = "finite filter with rounding slack"
             return out, info
         hist = [hist[k] for k in kept]
+        slacks = [slacks[k] for k in kept]
         info["finite_filter"] = True
     pick = cand[-1]
     for q in cand:
@@ -328,7 +330,7 @@ def o_c03(rec, table=None):
             pick = q
             break
     ret = (pick["f"], pick["v"])
-    verdict, clause, msg = filt.judge(hist, pen, tol, ret, delta)
+    verdict, clause, msg = filt.judge(hist, pen, tol, ret, delta, slacks)
     info["clause"] = clause
     info["n_hist"] = len(hist)
     info["has_nan"] = any(math.isnan(f) or (isinstance(v, float) and
